@@ -3,7 +3,7 @@ HANDLER = "C17"
 RULE = ("random transition systems from two generators (sysgen::gen_sys with 1..6 states / 0..4 inputs / depth 1..3, and a sparse generator "
         "with 2..8 states, 0..4 inputs and shallow next/init functions so that cones are proper subsets and next/init chains are long); "
         "states with init+next / next only / init only / neither / constant (next = own symbol); array states; init functions reading "
-        "earlier, later and the own state; twists: a symbol that is neither input nor state used in outputs and next functions (1/4), a "
+        "earlier, later and the own state; all 35 expression constructors occur as roots (division family in 1/3 of the gen systems, ArrayEqual in the sparse ones; histogram root_op); twists: a symbol that is neither input nor state used in outputs and next functions (1/4), a "
         "symbol with the name of a state but another width or an array type (1/8), wide values 8..65 bits (1/10), a symbol that is input and state (1/10), two states with one symbol "
         "(1/12, outside the property's domain: model-vs-implementation only). Roots: EVERY expression of the system and every "
         "sub-expression, plus a literal, the foreign symbols and a fresh combination of two system symbols; each root x the 3 variants. "
